@@ -213,8 +213,9 @@ func runC14_2(c *core.Ctx) {
 	// relocation: cm.table[A][B] = cm.table[row][column]
 	var reloc *ast.AssignStmt
 	ast.Inspect(f.Decl.Body, func(n ast.Node) bool {
-		if as, ok := n.(*ast.AssignStmt); ok && len(as.Lhs) == 1 && len(as.Rhs) == 1 && a.storeInto(f, as.Lhs[0]) == a.table && a.storeInto(f, as.Rhs[0]) == a.table {
-			if _, isIdx := ast.Unparen(as.Rhs[0]).(*ast.IndexExpr); isIdx {
+		if as, ok := n.(*ast.AssignStmt); ok && len(as.Lhs) == 1 && len(as.Rhs) == 1 && a.storeInto(f, as.Lhs[0]) == a.table {
+			// (the moved entry may have been given a name inside the scan: last := cm.table[row][column])
+			if rhs, isIdx := seeThroughAt(f, as.Rhs[0], as).(*ast.IndexExpr); isIdx && a.storeInto(f, rhs) == a.table {
 				reloc = as
 			}
 		}
@@ -227,7 +228,7 @@ func runC14_2(c *core.Ctx) {
 	dst := ast.Unparen(reloc.Lhs[0]).(*ast.IndexExpr)
 	dstRow := exprStr(ast.Unparen(dst.X).(*ast.IndexExpr).Index)
 	dstCol := exprStr(dst.Index)
-	src := exprStr(reloc.Rhs[0])
+	src := exprStr(seeThroughAt(f, reloc.Rhs[0], reloc))
 	const (
 		fUpd = 1 << iota
 		fGfd
@@ -253,7 +254,7 @@ func runC14_2(c *core.Ctx) {
 					}
 					// <moved conn>.gfd = gFd
 					if flow.FieldOf(f.Info, l) == a.connGfd && flow.ObjOf(f.Info, y.Rhs[k]) == gfdObj && gfdObj != nil && in&fUpd != 0 {
-						if sel, ok := ast.Unparen(l).(*ast.SelectorExpr); ok && exprStr(sel.X) == src {
+						if sel, ok := ast.Unparen(l).(*ast.SelectorExpr); ok && exprStr(seeThroughAt(f, sel.X, y)) == src {
 							in |= fGfd
 						}
 					}
